@@ -1,1 +1,58 @@
-"""placeholder"""
+"""R-SHAPE: every string serialize_molecule can return is a sentence of the published grammar."""
+from __future__ import annotations
+
+from ..gram import Det, NFA, build, compare, grammars, literals_of
+from ..model import AnalysisError
+from ..report import Finding, RuleResult
+from ..strshape import Graph, ShapeInterp, to_ast
+from . import rule
+from .common import entry
+
+
+@rule("R-SHAPE")
+def r_shape(ctx) -> RuleResult:
+    res = RuleResult("R-SHAPE", "the set of strings serialize_molecule can return (regular over-approximation computed from its code, all paths) is included in L_EBNF(tucan)")
+    repo = ctx.repo
+    attrs = repo.try_const("tucan.element_attributes", "ELEMENT_ATTRS", None)
+    if not isinstance(attrs, dict):
+        raise AnalysisError("ELEMENT_ATTRS is no longer a constant table")
+    symbols = list(attrs)
+    # bound of the attribute-value holes: established by R-ZERO (readers) and by the grammar (parser: value > 0)
+    from ..check import run_rules
+    zero = run_rules(ctx, ["R-ZERO"])[0]
+    if zero.error:
+        raise AnalysisError(f"R-SHAPE needs R-ZERO's verdict: {zero.error}")
+    value_lo = 1 if not zero.findings else None
+    ser = entry(ctx, "serialize")
+    I = ShapeInterp(repo, symbols, value_lo)
+    shape = I.run(ser, [Graph()])
+    G = grammars(ctx)
+    if G.check_acyclic():
+        raise AnalysisError("grammar is recursive; inclusion needs the regular case")
+    lits = sorted(literals_of(G.ebnf, "tucan"), key=len, reverse=True)
+    number = next(iter(G.ebnf_lex), "GREATER_THAN_NINE")
+    bad: list = []
+    ast_ = to_ast(shape, lits, number, bad)
+    n = NFA()
+    a, b = build(n, ast_)
+    A = Det(n, a, b)
+    ok, wit, states, _ = compare(A, G.det("ebnf", "tucan"), "subset")
+    s = repr(shape)
+    res.inst(ser.fq, "emitted language ⊆ L_EBNF(tucan)", "ok" if ok and not bad else "fail",
+             detail=f"{states} product states; shape {s[:90]} … {s[-160:]}")
+    if bad:
+        res.fail(Finding("R-SHAPE", ser.module.rel, ser.qualname, f"literal {bad[0][:12]!r}",
+                         f"the serializer can emit the text {bad[0][:12]!r}, which is not made of the grammar's tokens", line=ser.node.lineno))
+    elif not ok:
+        w = " ".join(wit)
+        why = ""
+        if "⟨INT≤0⟩" in wit:
+            why = " (an emitted number may be 0 or negative: " + ("attribute values are not proven positive, see R-ZERO" if value_lo is None else "an index or count is not proven ≥ 1") + ")"
+        res.fail(Finding("R-SHAPE", ser.module.rel, ser.qualname, f"witness: {w}",
+                         f"serialize_molecule can return the token string `{w}`, which the published grammar rejects{why}",
+                         line=ser.node.lineno, extra={"witness": list(wit), "shape": s[:400]}))
+    res.counts = {"product_states": states, "shape_pieces": len(shape.p), "element_symbols": len(symbols)}
+    res.notes = I.notes[:6] + [f"attribute value holes: INT≥{value_lo}" if value_lo else "attribute value holes unbounded (R-ZERO reports)"]
+    res.trusted = ["every producer of element_symbol indexes ELEMENT_ATTRS with it (R-SIBKEYS, parser _add_atoms), so Counter keys ⊆ the table's symbols",
+                   "labels are 0..n-1 after the final relabel (R-BIJ, R-CODEC)"]
+    return res
